@@ -9,6 +9,10 @@ def add(pid, cat, text, note, tech, engine):
         evidence_file=f"/verif/evidence/{pid}.json", replay_cmd_template=f"./vcheck {pid} --replay {{path}}", engine=engine,
         level_claimed=dict(category=cat, text=text, design_ref=f"DESIGN.md §4 {pid}"), level_note=note, technique=tech)
 
+add("C01", "exploration",
+    "Exhaustive enumeration, on the real Context with harness plugin graphs (chain, filter, same-kind merge, two-kind loop, multi-output, overlap window, down-chunking, exhaust), of every disjoint source row set of <=3 rows x every law-abiding chunking (incl. empty / zero-duration chunks, independent per source) x processor/worker/lazy/capacity/rechunk cells x every pre-stored subset of data types; oracle = whole-run evaluation of the graph + contiguity + re-read of everything stored from a fresh context. Threaded runs execute under the controlled scheduler; a slice is explored over thread schedules (delay-bounded, stateless).",
+    "small-scope hypothesis (<=3 rows/source, 5-point grid); enumerated threaded cells run one fixed schedule, schedules are exhausted only to delay bound 1-2 for the slice named in the evidence; no real OS processes",
+    "bounded exhaustive enumeration of inputs x configurations on the implementation (+ delay-bounded schedule exploration under a controlled scheduler) vs whole-run reference", "graphs")
 add("C05", "model_checking",
     "Explicit-state model checking of the real strax.Mailbox: the complete reachable state graph (all thread schedules at lock/condition/thread-start/join/future granularity) of small sender/reader/worker configurations is explored by a stateless DFS with canonical-state pruning under a controlled scheduler that replaces strax.mailbox.threading; every terminal state must show exact in-order delivery to every subscriber and every state must respect the capacity; deadlock states are violations.",
     "atomicity between scheduling points (mailbox state only touched under its RLock); no condition time-outs or spurious wake-ups; canonical state hashing (cross-checked against stateless exploration at delay bound 1); bounds: <=3 subscribers, <=4-5 messages, capacity <=4",
